@@ -20,12 +20,13 @@ addition in ℕ (no wrap-around).  All theorems hold for both build profiles (`m
 
 clause → theorem
 * facts the proofs rest on (re-checked by `decide`) ........... `ack_cap_fact`, `ack_file_fact`, `credit_add_fact`, `credit_checked_fact`,
-  `resume_cap_fact`, `reconnect_cancel_first_fact`, `advance_keeps_cancel_fact`
+  `resume_cap_fact`, `reconnect_cancel_first_fact`, `advance_keeps_cancel_fact`, `cancel_first_wins_fact`
 * acked ≤ sent after every history .......................... `acked_le_sent`
 * foreign-file or stale ack changes nothing ................. `foreign_or_stale_ack_inert`
 * credit granted ⇒ nothing in flight ∨ in-flight + len ≤ window `credit_sound_all` (general form `credit_sound`; never a panic: `credit_never_panics`; converse: `credit_granted_iff`)
 * documented loop ⇒ in flight ≤ max window lastChunk ........ `loop_bound_all` (general forms `loop_bound`, `loop_bound_prefix`)
 * cancel permanent, first reason wins ....................... `cancel_sticky_first_reason`, `cancel_records_first`
+  (for every reason value, the empty string included: reasons are opaque, `reasons_opaque`, `edge_reasons_distinct`)
 * every later wait reports it; resume refused ............... `waits_report_cancel`, `resume_refused_after_cancel`
 * the release profile never poisons the mutex ............... `release_never_poisons`
 * the idle watchdog only ever cancels; first reason wins against it; what refreshes its time stamps
@@ -58,6 +59,9 @@ theorem resume_cap_fact : F.resumeCap = true := by decide
 theorem reconnect_cancel_first_fact : F.reconnCancelFirst = true := by decide
 /-- `advance_to_file` does not touch `cancelled`. -/
 theorem advance_keeps_cancel_fact : F.advanceKeepsCancel = true := by decide
+/-- `cancel` stores its reason only under `if guard.cancelled.is_none()` — not under a test that looks at the
+stored string (a blank one, say), and not unconditionally. -/
+theorem cancel_first_wins_fact : F.cancelFirstWins = true := by decide
 
 /-- The credit sum is exact: a checked add always, a saturating add unless the window is `u64::MAX`. -/
 theorem credit_exact (w : Nat) (hw : F.creditAdd = .checked ∨ w + 1 < U64) : CreditExact F w := by
@@ -167,7 +171,7 @@ example : Follows F .checks (init 4 0) {}
 permanent, first reason wins. -/
 theorem cancel_sticky_first_reason (m : OvMode) (s : State) (r : Nat) (h : s.cancelled = some r) (ops : List Op) :
     (run F m s ops).cancelled = some r :=
-  run_inv (fun s => s.cancelled = some r) (fun s op h => step_cancel_sticky advance_keeps_cancel_fact s op r h) ops s h
+  run_inv (fun s => s.cancelled = some r) (fun s op h => step_cancel_sticky advance_keeps_cancel_fact cancel_first_wins_fact s op r h) ops s h
 
 /-- The first `cancel` records its reason. -/
 theorem cancel_records_first (m : OvMode) (s : State) (r : Nat) (hp : s.poisoned = false) (h : s.cancelled = none) :
@@ -192,6 +196,27 @@ theorem resume_refused_after_cancel (m : OvMode) (s : State) (r : Nat) (h : s.ca
 example : ((step F .checks (init 4 4) (.cancel 5)).1).cancelled = some 5 ∧
     (run F .checks (step F .checks (init 4 4) (.cancel 5)).1 [.cancel 6, .advance 1, .recordAck 1 0]).poisoned = false := by
   decide
+
+/-- Reasons are opaque: `r` above ranges over every reason value — the empty string, blanks, a 64 KiB string,
+non-ASCII text are values like any other (`Model/Transfer.lean`, `edgeReasons`) —, and the model cannot tell
+them apart: renaming the reasons of a history by any `ρ` renames the stored reason and the reported ones and
+changes nothing else. So no reason is a "placeholder" that a later one may replace. -/
+theorem reasons_opaque (m : OvMode) (ρ : Nat → Nat) (s : State) (ops : List Op) :
+    run F m (renameS ρ s) (ops.map (renameOp ρ)) = renameS ρ (run F m s ops) ∧
+    ∀ op, step F m (renameS ρ s) (renameOp ρ op) = (renameS ρ (step F m s op).1, renameRet ρ (step F m s op).2) :=
+  ⟨run_rename F m ρ s ops, step_rename F m ρ s⟩
+
+/-- The harness's edge reasons are pairwise distinct tokens, distinct from the small tokens `r0`–`r9`. -/
+theorem edge_reasons_distinct : (edgeReasons ++ List.range 10).Nodup := by decide
+
+/-- A blank first reason wins like any other: against a later stated reason, against the watchdog's, and the
+waits keep reporting it. -/
+example : (run F .checks (init 8 8) [.cancel emptyReason, .waitCredit 3, .cancel idleReason, .cancel 3]).cancelled
+      = some emptyReason ∧
+    (step F .checks (run F .checks (init 8 8) [.cancel emptyReason, .cancel idleReason]) (.waitCredit 3)).2
+      = .creditCancelled emptyReason ∧
+    (step F .checks (run F .checks (init 8 8) [.cancel blankReason, .cancel emptyReason]) .waitReconnect).2
+      = .reconnCancelled blankReason := by decide
 
 /-- In the release profile (no overflow checks, no debug assertions) no method panics, so the mutex is
 never poisoned, whatever the history. -/
@@ -245,7 +270,7 @@ an *empty* cancel slot. -/
 theorem watchdog_only_cancels (m : OvMode) (s : State) (sawCancelled idle : Bool) :
     run F m s (watchdogVisit sawCancelled idle) = s ∨
     (s.cancelled = none ∧ run F m s (watchdogVisit sawCancelled idle) = { s with cancelled := some idleReason }) :=
-  watchdog_visit_effect s sawCancelled idle
+  watchdog_visit_effect cancel_first_wins_fact s sawCancelled idle
 
 /-- First reason wins against the watchdog too, in every interleaving: if the transfer was cancelled with `r`
 at some point, then after any further history — other callers and any number of watchdog visits, whatever they
